@@ -298,6 +298,10 @@ def theorem_of(l):
         if " FROM time_series" in sql and "JSONExtractKeysAndValues" in sql:
             return "prom_labels_fetch_date_covers (+ refutation: untyped) (PromSel.labels_fetch)"
         return "prom_every_scan_bounded (PromSel.querier_transpile)"
+    if ep in PROF_EPS:
+        return "prof_every_scan_bounded (ReplanProf.pprocess)"
+    if ep == "prof_types":
+        return "profile_types_every_scan_bounded (ScansProf.profile_types_query)"
     if ep in TQ_EPS and not sql.startswith("WITH pre_final"):
         return "traceql_every_scan_bounded (TraceqlPlan.plan)"
     return None
@@ -349,6 +353,7 @@ def run_scan(ck):
         if name == "sweep" and res:
             run_traceql_tie(ck, lines, res)
             run_label_tie(ck, lines)
+            run_prof_tie(ck, lines)
         if name == "sweep":
             # every endpoint must have been exercised: a request that stops answering with SQL is a silent loss of coverage
             by_ep = {}
@@ -590,6 +595,103 @@ def run_label_tie(ck, lines):
                   "every window class)" % len(ln), not bad,
                   "; ".join("%s %s %s [%d,%d): %.300s" % (ln[i]["ep"], "cluster" if ln[i]["cluster"] else "single", ln[i]["class"], ln[i]["from_ns"], ln[i]["to_ns"], ln[i]["sql"]) for i in bad[:3]))
     ck.coverage["evaluations"] += len(ln)
+
+
+# ---------------------------------------------------------------- Pyroscope: planner model vs recorded text
+SEL_AB = '[{| sl_name := "a"; sl_op := MEq; sl_val := "b" |}]'
+SEL_AC = '[{| sl_name := "a"; sl_op := MEq; sl_val := "c" |}]'
+PROF_EPS = {  # endpoint -> request as a planner object of ScansProf.preq, per statement index
+    "prof_label_names": ["RLabelNames [%s]" % SEL_AB],
+    "prof_label_names_nomatch": ["RLabelNames []"],
+    "prof_label_values": ['RLabelValues [%s] "job"' % SEL_AB],
+    "prof_merge_stacktraces": ["RMergeTraces %s tid0" % SEL_AB],
+    "prof_render_diff": ["RMergeTraces %s tid0" % SEL_AB, "RMergeTraces %s tid0" % SEL_AC],
+    "prof_select_series": ['RSelectSeries %s tid0 ["a"] false 15' % SEL_AB],
+    "prof_merge_profile": ["RMergeProfiles %s tid0" % SEL_AB],
+    "prof_series": ['RSeries [%s] ["a"]' % SEL_AB],
+    "prof_series_nomatch": ["RSeries [] []"],
+    "prof_analyze": ["RAnalyze %s" % SEL_AB]}
+PROF_CLASSES = ("plain-noon", "cross-midnight", "first-half-hour", "sub-second", "month-end", "two-days", "random")
+
+
+def run_prof_tie(ck, lines):
+    """text of the statement the profile planner model (ReplanProf.pprocess / prender, under the theorem
+    prof_every_scan_bounded) builds for the request = recorded statement, byte for byte; the oracle accepts every read of
+    the model's statement (presult_scans: incl. the UNION ALL members the Sql.v tree keeps aside)"""
+    cases, seen, per = [], set(), {}
+    for l in lines:
+        if l["kind"] != "stmt" or l["ep"] not in PROF_EPS or l["zone"] not in (0, -18000) or l["class"] not in PROF_CLASSES:
+            continue
+        idx = l.get("idx", 0)
+        key = (l["ep"], l["cluster"], idx, l["class"])
+        grp = (l["ep"], l["cluster"], idx)
+        # two window classes per (endpoint, layout, statement), rotating over the classes so that all of them occur
+        want = {PROF_CLASSES[(len(l["ep"]) + k + (1 if l["cluster"] else 0)) % len(PROF_CLASSES)] for k in (0, 3)}
+        if key in seen or l["class"] not in want or per.get(grp, 0) >= 2 or idx >= len(PROF_EPS[l["ep"]]):
+            continue
+        seen.add(key)
+        per[grp] = per.get(grp, 0) + 1
+        cases.append(l)
+    if not cases:
+        ck.obligation("Pyroscope statements of the sweep compared with the planner model", False, "no statement found")
+        return
+    items = []
+    for i, l in enumerate(cases):
+        f, t = l["from_ns"], l["to_ns"]
+        if l["ep"] == "prof_render_diff":
+            # ProfController.RenderDiff cuts the millisecond parameters to whole seconds (recorded finding
+            # render-diff-window-truncated-to-seconds): the planner context is built from the cut values
+            f, t = f // 10**9 * 10**9, t // 10**9 * 10**9
+        db = re.search(r"`([^`]+)`\.", l["sql"])
+        items.append('{| prc_id := %d; prc_ctx := prof_ctx %s %s %d %d; prc_req := %s; prc_sql := %s |}' % (
+            i, "true" if l["cluster"] else "false", coq_string(db.group(1) if db else ""), f, t,
+            PROF_EPS[l["ep"]][l.get("idx", 0)], coq_string(l["sql"])))
+    pt, seen = [], set()
+    for l in lines:
+        if l["kind"] != "stmt" or l["ep"] != "prof_types" or l["zone"] not in (0, 50400):
+            continue
+        key = (l["cluster"], l["class"])
+        if key in seen:
+            continue
+        seen.add(key)
+        pt.append(l)
+    pitems = ["{| ptc_id := %d; ptc_table := %s; ptc_start_ms := %d; ptc_end_ms := %d; ptc_sql := %s |}" % (
+        i, coq_string("profiles_series_dist" if l["cluster"] else "profiles_series"), l["from_ns"] // 1000000, l["to_ns"] // 1000000,
+        coq_string(l["sql"])) for i, l in enumerate(pt)]
+    txt = ("From Coq Require Import List ZArith NArith String Ascii Bool.\n"
+           "From Qryn Require Import lib.Strs model.Sql model.Logql model.ProfSel model.ReplanProf model.Scans model.ScansProf.\n"
+           "Import ListNotations.\nOpen Scope string_scope.\nOpen Scope Z_scope.\n"
+           "Definition cases : list pr_case := [\n " + ";\n ".join(items) + "].\n"
+           "Definition M := Eval vm_compute in pr_mismatches cases.\nPrint M.\n"
+           "Definition U := Eval vm_compute in pr_unbounded cases.\nPrint U.\n"
+           "Definition N := Eval vm_compute in pr_nscans cases.\nPrint N.\n"
+           "Definition tcases : list pt_case := [\n " + ";\n ".join(pitems) + "].\n"
+           "Definition T := Eval vm_compute in pt_mismatches tcases.\nPrint T.\n")
+    rc, out = ck.coq_eval("C13_prof", txt, timeout=600)
+    flat = " ".join((out or "").split())
+    got = {k: re.search(r"%s = \[(.*?)\]\s*: list Z" % k, flat) for k in "MUNT"}
+    if rc != 0 or not all(got.values()):
+        ck.obligation("Pyroscope planner model evaluated on the requests of the sweep", False, (out or "")[-1500:])
+        return
+    ids = {k: [int(x) for x in re.findall(r"-?\d+", m.group(1))] for k, m in got.items()}
+    desc = lambda c: "%s[%d] %s %s [%d,%d): %.300s" % (c["ep"], c.get("idx", 0), "cluster" if c["cluster"] else "single", c["class"], c["from_ns"], c["to_ns"], c["sql"])
+    ck.obligation("correspondence: prender (pprocess (plan of the request) ctx) = recorded statement, byte for byte, on %d Pyroscope statements "
+                  "(%d endpoints incl. both statements of render-diff, both layouts, %d window classes)" % (
+                      len(cases), len({c["ep"] for c in cases}), len({c["class"] for c in cases})),
+                  not ids["M"] and len({c["ep"] for c in cases}) == len(PROF_EPS), "; ".join(desc(cases[i]) for i in ids["M"][:3]))
+    ck.obligation("the oracle accepts every read (presult_scans) of the profile planner model's statement for these requests "
+                  "(%d reads with multiplicity)" % sum(x for x in ids["N"] if x > 0), not ids["U"] and all(x > 0 for x in ids["N"]),
+                  "; ".join(desc(cases[i]) for i in ids["U"][:3]))
+    ck.obligation("correspondence: render (profile_types_query) = recorded statement of ProfileTypes, byte for byte, on %d requests "
+                  "(both layouts, every window class)" % len(pt), bool(pt) and not ids["T"],
+                  "; ".join(desc(pt[i]) for i in ids["T"][:3]))
+    if ids["U"]:
+        c = cases[ids["U"][0]]
+        ck.violation({"property": "C13", "part": "profile planner model", "kind": "a base-table read of the planner model's statement is not confined to the window",
+                      "endpoint": c["ep"], "cluster": c["cluster"], "requested_from_ns": c["from_ns"], "requested_to_ns": c["to_ns"], "statement": c["sql"],
+                      "request": request_of(c), "replay": "bin/check C13 --replay <this file>"})
+    ck.extra["prof_model_ties"] = len(cases) + len(pt)
+    ck.coverage["evaluations"] += len(cases) + len(pt)
 
 
 # ---------------------------------------------------------------- the stored day of trace attribute rows
